@@ -93,11 +93,11 @@ class StructureDetector:
         self.loop_headers = {loop.header: loop for loop in self.loops}
 
         self.marked = {self.cfg.exit_node}
+        self.in_progress = set()
         self.follow_stack = [self.cfg.exit_node]
-        top_loop = Loop(
-            header=self.cfg.entry_node,
-            rest=(self.cfg.nodes - {self.cfg.entry_node}),
-        )
+        # The function body is the outermost 'loop'. It has no header: the
+        # entry node may itself be the header of a real loop.
+        top_loop = Loop(header=None, rest=self.cfg.nodes)
 
         # Stack of loops with follow nodes
         self.loop_stack = [(top_loop, None)]
@@ -112,6 +112,22 @@ class StructureDetector:
         created shape completes without a break or continue.
         """
 
+        # A loop header is shaped twice: as the loop and, inside it, as code.
+        key = (entry, self.is_inactive_header(entry))
+        if key in self.in_progress:
+            # We came back to a node whose shape is still under
+            # construction and which is not the header of a loop: a cycle
+            # without a dominating header (irreducible control flow).
+            raise ValueError(
+                f"Cannot structure control flow: cycle through {entry}"
+            )
+        self.in_progress.add(key)
+        try:
+            return self._make_shape(entry, fall_through)
+        finally:
+            self.in_progress.discard(key)
+
+    def _make_shape(self, entry, fall_through):
         # Decide between loop, if-else or straight line code:
         if entry is self.cfg.exit_node:
             shape = None
